@@ -128,7 +128,8 @@ func fixIns(ins *x86asm.Inst, pos int, block []byte, blockSize int,
 		result := bytecode.EncodeAddress(block[pos:offset],
 			block[offset:offset+ins.PCRel], ins.PCRel, addr, (int)(from)-(int)(trampoline))
 		if len(result) > ins.PCRel {
-			return result
+			// keep the bytes that follow the displacement field (immediate operands)
+			return append(result, block[offset+ins.PCRel:pos+ins.Len]...)
 		}
 	} else {
 		if ins.Op.String() == bytecode.CallInsName {
